@@ -34,7 +34,7 @@ package command
 // ---- chaining: the commander's mutex protects the head of the chain, the transaction counter and the
 // position of the batcher's queue. Whenever the mutex is free, everything that has been chained has been
 // handed to the batcher (so logs reach the store in id order) ...
-//@ monitor command.Commander.mu protects Commander.lastLog, Commander.lastTXID, ghost queueTail, ghost chainedTx invariant queueTail == ite(self.lastLog == nil, 0 - 1, val(self.lastLog.ID)) && headOK(self) && self.lastTXID != nil      // C05
+//@ monitor command.Commander.mu protects Commander.lastLog, Commander.lastTXID, ghost queueTail, ghost chainedTx invariant queueTail == ite(self.lastLog == nil, 0 - 1, val(self.lastLog.ID)) && headOK(self) && self.lastTXID != nil      // C05 C06
 // The transaction counter only moves in chainLog, together with the chain (see its contract): transaction ids increase by
 // one in log order.
 
@@ -188,6 +188,8 @@ package command
 
 //@ func (*command.lockIntent).unlock
 //@   requires intent != nil && chain != nil && chain.readLocks != nil && chain.writeLocks != nil
+// only a granted request has accounts in the table: giving back what was never taken removes another holder's locks (C15 C02)
+//@   requires lockPhase[intent.acquired] == 2
 //@   ensures forall j in 0..len(intent.accounts.Write) :: !has(chain.writeLocks, intent.accounts.Write[j])
 //@   ensures forall a string :: has(chain.writeLocks, a) ==> old(has(chain.writeLocks, a))
 //@   ensures forall a string :: old(has(chain.writeLocks, a)) && !has(chain.writeLocks, a) ==> occurs(intent.accounts.Write, a) > 0
@@ -219,7 +221,7 @@ package command
 //@   assumes forall c3 ref :: !allocated(c3) ==> lockPhase[c3] == 0
 //@   ensures err != nil ==> forall c4 ref :: fresh(c4) ==> lockPhase[c4] != 1 && lockPhase[c4] != 2
 //@   ensures ret0 != nil ==> forall c5 ref :: fresh(c5) && lockPhase[c5] != 0 ==> lockPhase[c5] == 2
-//@   property C15
+//@   property C15 C02
 // recheck (run by a releasing request under the mutex): walks the queue and grants what can be granted; a request only
 // ever moves from waiting to granted here, and its channel is closed in the same critical section
 //@ func (*command.DefaultLocker).Lock$1
